@@ -100,6 +100,11 @@ def check(ctx):
         fw.run_suite(ctx, exe, "S-rtp/random-subsets", subsets_lines(rnd, [rnd.getrandbits(23) for _ in range(8192)]), "radiotap decode")
     fw.run_suite(ctx, exe, "S-rtp/multiword", multiword(rnd, 3000 if ctx.tier == "quick" else 40000), "radiotap decode")
     fw.run_suite(ctx, exe, "S-rtp/malformed", malformed(rnd, 2000 if ctx.tier == "quick" else 30000), "radiotap decode")
+    # alignment is relative to the start of the header, not to the address of the capture
+    mis = subsets_lines(rnd, rnd.sample(range(1 << 23), 700)) + multiword(rnd, 300)
+    for k in (1, 2, 4):
+        fw.run_suite(ctx, exe, "S-rtp/misaligned@+%d" % k, mis[k::3], "radiotap decode of a header at a misaligned address", env={"LWV_MISALIGN": str(k)})
+
     fw.conclude(ctx, broken)
 
 
